@@ -226,6 +226,17 @@ impl Sut {
         rt::wait_until("command worker to exit after the cache was dropped", || exited_all(&[Role::Worker]))
     }
 
+    /// `finish`, unless a hang was already classified in this case: shutdown() would then block on the very locks that are
+    /// stuck, so the cache (and its blocked threads) is deliberately leaked and the process moves on.
+    pub fn finish_or_leak(self) -> Result<(), Waited> {
+        if rt::aborted() {
+            rt::sched().release_all();
+            std::mem::forget(self.cache.clone());
+            return Ok(());
+        }
+        self.finish()
+    }
+
     pub fn worker_dead(&self) -> bool {
         let i = role_index(Role::Worker);
         recorder().exited[i].load(Ordering::SeqCst) > self.marks.exited[i]
